@@ -7,12 +7,12 @@
   versions) is arbitrary, batches have ANY length: every theorem is for all `srv` and `req`.
   `Accepted srv req` = supported version ∧ option ≠ Undo ∧ BatchCount = number of items.
 
-  The statements speak about what the property speaks about — operation, id and status of every
-  response item, count, version, the call log. Result REASONS are in the model (`RItem.reason`) but in
-  no statement: the property does not mention them and the harness does not compare them.
-  Batch-item middlewares are outside this model (hypothesis of every theorem here: none installed);
-  the harness runs the same oracles on the real executor with transparent, masking and refusing item
-  middlewares installed (engine `batch`, impl-side only).
+  Result REASONS occur in some statements through `canceled` / `itemResult` (the model's whole response
+  item): that part is a statement about the model only — the property does not speak about reasons and
+  the harness does not compare them (statuses S/F, operation, id, count, version and the call log are).
+  Theorems 1–8 are for the executor without batch-item middleware; 9a–9e are what the loop guarantees
+  around ANY item chain (the harness runs the real executor with transparent, masking, refusing and
+  failing item middlewares against them).
 -/
 import KmipModel.Lemmas.BatchLemmas
 namespace Kmip.C09
@@ -72,23 +72,21 @@ theorem calls_in_order (srv : Srv) (req : Req) :
 
 /-- 5. Stop. Let `k` be the first failed item of the response. Then
     (a) no handler of an item after `k` runs;
-    (b) every item after `k` is answered failed, echoing its operation and id — none is reported
-        successful;
+    (b) every item after `k` is answered failed, "operation canceled by requester", echoing its
+        operation and id — none is reported successful;
     (c) the handlers that run are exactly those of the items up to `k` that reach a handler
         (registered operation, no critical extension), each once (4.);
-    (d) up to `k` every item is answered with its own status (`fails`, spelled out by 8.). -/
+    (d) up to `k` every item is answered with its own result. -/
 theorem stop_semantics (srv : Srv) (req : Req) (h : Accepted srv req) (hstop : req.opt = optStop)
     (k : Nat) (r : RItem) (hk : (execFull srv req).resp.items[k]? = some r) (hf : r.failed = true)
     (hfirst : ∀ j r', j < k → (execFull srv req).resp.items[j]? = some r' → r'.failed = false) :
     (∀ c ∈ (execFull srv req).calls, c ≤ k) ∧
     (∀ j it, k < j → req.items[j]? = some it →
-        ∃ r', (execFull srv req).resp.items[j]? = some r' ∧
-          r'.op = it.op ∧ r'.id = it.id ∧ r'.failed = true) ∧
+        (execFull srv req).resp.items[j]? = some (canceled it)) ∧
     (∀ c, c ∈ (execFull srv req).calls ↔
         c ≤ k ∧ ∃ it, req.items[c]? = some it ∧ dispatched srv it = true) ∧
     (∀ j it, j ≤ k → req.items[j]? = some it →
-        ∃ r', (execFull srv req).resp.items[j]? = some r' ∧
-          r'.op = it.op ∧ r'.id = it.id ∧ r'.failed = fails srv it) := by
+        (execFull srv req).resp.items[j]? = some (itemResult srv it)) := by
   rw [execFull_accepted srv req h] at hk hfirst ⊢
   simp only at hk hfirst ⊢
   have hs : (req.opt == optStop) = true := by simp [hstop]
@@ -111,9 +109,9 @@ theorem stop_semantics (srv : Srv) (req : Req) (h : Accepted srv req) (hstop : r
       exact ⟨c, it, by omega, hget, hd, hbefore c hc⟩
   refine ⟨fun c hc => ((hcalls c).1 hc).1, ?_, hcalls, ?_⟩
   · intro j it hj hget
-    exact ⟨canceled it, by rw [loop_items_get, hget, hafter j hj]; rfl, rfl, rfl, rfl⟩
+    rw [loop_items_get, hget, hafter j hj]; rfl
   · intro j it hj hget
-    exact ⟨itemResult srv it, by rw [loop_items_get, hget, hbefore j hj]; rfl, rfl, rfl, rfl⟩
+    rw [loop_items_get, hget, hbefore j hj]; rfl
 
 /-- 5'. Stop: no item after the first failed one is reported successful. -/
 theorem stop_none_successful_after (srv : Srv) (req : Req) (h : Accepted srv req)
@@ -121,28 +119,27 @@ theorem stop_none_successful_after (srv : Srv) (req : Req) (h : Accepted srv req
     (hk : (execFull srv req).resp.items[k]? = some r) (hf : r.failed = true)
     (hfirst : ∀ j r', j < k → (execFull srv req).resp.items[j]? = some r' → r'.failed = false)
     (j : Nat) (r' : RItem) (hj : k < j) (hr' : (execFull srv req).resp.items[j]? = some r') :
-    r'.failed = true := by
+    r'.failed = true ∧ r'.reason = reasonOperationCanceledByRequester := by
   have hlen := one_item_per_request_item srv req h
   have hjlt : j < req.items.length := by
     cases Nat.lt_or_ge j (execFull srv req).resp.items.length with
     | inl h => omega
     | inr h => rw [List.getElem?_eq_none h] at hr'; cases hr'
   have hget : req.items[j]? = some req.items[j] := List.getElem?_eq_getElem hjlt
-  obtain ⟨r'', h1, _, _, h4⟩ := (stop_semantics srv req h hstop k r hk hf hfirst).2.1 j _ hj hget
-  rw [h1] at hr'
+  have := (stop_semantics srv req h hstop k r hk hf hfirst).2.1 j _ hj hget
+  rw [this] at hr'
   cases hr'
-  exact h4
+  exact ⟨rfl, rfl⟩
 
 /-- 6. Continue, unset, or any unknown option value: every item is processed — the handlers that
     run are exactly those of the items that reach a handler, each once (4.), and every item is
-    answered with its own status (a failure never affects another item). -/
+    answered with its own result (a failure never affects another item). -/
 theorem continue_semantics (srv : Srv) (req : Req) (h : Accepted srv req)
     (hns : req.opt ≠ optStop) :
     (∀ c, c ∈ (execFull srv req).calls ↔
         ∃ it, req.items[c]? = some it ∧ dispatched srv it = true) ∧
     (∀ (j : Nat) (it : Item), req.items[j]? = some it →
-        ∃ r', (execFull srv req).resp.items[j]? = some r' ∧
-          r'.op = it.op ∧ r'.id = it.id ∧ r'.failed = fails srv it) := by
+        (execFull srv req).resp.items[j]? = some (itemResult srv it)) := by
   rw [execFull_accepted srv req h]
   have hs : (req.opt == optStop) = false := by simpa using hns
   rw [hs]
@@ -156,7 +153,7 @@ theorem continue_semantics (srv : Srv) (req : Req) (h : Accepted srv req)
     · rintro ⟨it, hget, hd⟩
       exact ⟨c, it, by omega, hget, hd, by simp [stoppedAt]⟩
   · intro j it hget
-    exact ⟨itemResult srv it, by rw [loop_items_get, hget]; simp [stoppedAt], rfl, rfl, rfl⟩
+    rw [loop_items_get, hget]; simp [stoppedAt]
 
 /-- 6'. … in particular, when every item reaches a handler, the call log is `[0, 1, …, n-1]`. -/
 theorem continue_all_executed (srv : Srv) (req : Req) (h : Accepted srv req)
@@ -190,42 +187,42 @@ theorem stop_without_failure (srv : Srv) (req : Req) (h : Accepted srv req)
     operation and no id, batch count 1, the request's version (1.0 when the request carries the
     zero version), and NO handler runs. -/
 theorem rejected (srv : Srv) (req : Req) (h : ¬ Accepted srv req) :
-    ∃ r, (execFull srv req).resp.items = [r] ∧ r.op = 0 ∧ r.id = none ∧ r.failed = true ∧
+    ∃ reason, (execFull srv req).resp.items = [{ op := 0, id := none, failed := true, reason := reason }] ∧
       (execFull srv req).calls = [] ∧
       (execFull srv req).resp.count = 1 ∧
       (execFull srv req).resp.ver = (if req.ver ≠ ((0, 0) : Ver) then req.ver else v10) := by
   rw [execFull_rejected srv req h]
   unfold rejectErr
   split
-  · exact ⟨_, rfl, rfl, rfl, rfl, rfl, rfl, rfl⟩
-  · split <;> exact ⟨_, rfl, rfl, rfl, rfl, rfl, rfl, rfl⟩
+  · exact ⟨_, rfl, rfl, rfl, rfl⟩
+  · split <;> exact ⟨_, rfl, rfl, rfl, rfl⟩
 
 /-- 7a. the Undo option. -/
 theorem undo_rejected (srv : Srv) (req : Req) (h : req.opt = optUndo) :
     (∃ r, (execFull srv req).resp.items = [r] ∧ r.failed = true) ∧ (execFull srv req).calls = [] := by
-  obtain ⟨r, h1, _, _, hf, h2, _⟩ := rejected srv req (fun hacc => hacc.2.1 h)
-  exact ⟨⟨r, h1, hf⟩, h2⟩
+  obtain ⟨reason, h1, h2, _⟩ := rejected srv req (fun hacc => hacc.2.1 h)
+  exact ⟨⟨_, h1, rfl⟩, h2⟩
 
 /-- 7b. an unsupported protocol version. -/
 theorem unsupported_version_rejected (srv : Srv) (req : Req) (h : srv.supports req.ver = false) :
     (∃ r, (execFull srv req).resp.items = [r] ∧ r.failed = true) ∧ (execFull srv req).calls = [] := by
-  obtain ⟨r, h1, _, _, hf, h2, _⟩ := rejected srv req (fun hacc => by rw [hacc.1] at h; cases h)
-  exact ⟨⟨r, h1, hf⟩, h2⟩
+  obtain ⟨reason, h1, h2, _⟩ := rejected srv req (fun hacc => by rw [hacc.1] at h; cases h)
+  exact ⟨⟨_, h1, rfl⟩, h2⟩
 
 /-- 7c. a batch count that is not the number of items. -/
 theorem count_mismatch_rejected (srv : Srv) (req : Req) (h : req.count ≠ (req.items.length : Int)) :
     (∃ r, (execFull srv req).resp.items = [r] ∧ r.failed = true) ∧ (execFull srv req).calls = [] := by
-  obtain ⟨r, h1, _, _, hf, h2, _⟩ := rejected srv req (fun hacc => h hacc.2.2)
-  exact ⟨⟨r, h1, hf⟩, h2⟩
+  obtain ⟨reason, h1, h2, _⟩ := rejected srv req (fun hacc => h hacc.2.2)
+  exact ⟨⟨_, h1, rfl⟩, h2⟩
 
 /-- 8. what "its own result" is: an item is answered failed exactly when it is refused before
     dispatch (critical extension, unregistered operation other than a built-in DiscoverVersions)
     or its handler returns an error or panics. -/
 theorem itemResult_failed (srv : Srv) (it : Item) :
-    fails srv it = true ↔
+    (itemResult srv it).failed = true ↔
       it.ext = some true ∨ (srv.routed it.op = true ∧ it.out ≠ .success) ∨
       (srv.routed it.op = false ∧ it.discover = false) := by
-  simp only [fails]
+  simp only [itemResult, fails]
   cases hr : srv.routed it.op <;> simp
 
 /-! ### the batch loop around ANY batch-item middleware chain
